@@ -114,6 +114,27 @@ Proof.
 Qed.
 
 (* the fixed-column form: "YYYYMMDD HH:MM:SS.uuuuuu" *)
+Lemma ndigits_4 y : 1000 <= y < 10000 -> ndigits 20 y = 4%nat.
+Proof.
+  intros H.
+  assert (A : (ndigits 20 y <= 4)%nat) by (apply ndigits_le; [change (10 ^ Z.of_nat 4) with 10000; lia|lia]).
+  assert (B : y < 10 ^ Z.of_nat (ndigits 20 y)).
+  { apply ndigits_enough. assert (10000 <= 10 ^ Z.of_nat 21) by (vm_compute; discriminate). lia. }
+  destruct (Nat.eq_dec (ndigits 20 y) 4) as [E|E]; [exact E|]. exfalso.
+  assert (C : 10 ^ Z.of_nat (ndigits 20 y) <= 10 ^ 3) by (apply Z.pow_le_mono_r; lia).
+  change (10 ^ 3) with 1000 in C. lia.
+Qed.
+
+Lemma fmt0_2 n : 0 <= n < 100 -> fmt0 2 n = pad 2 n.
+Proof. intros H. apply fmt0_small; [lia|]. change (10 ^ Z.of_nat 2) with 100. exact H. Qed.
+Lemma fmt0_6 n : 0 <= n < 1000000 -> fmt0 6 n = pad 6 n.
+Proof. intros H. apply fmt0_small; [lia|]. change (10 ^ Z.of_nat 6) with 1000000. exact H. Qed.
+Lemma fmtsp_4 y : 1000 <= y < 10000 -> fmtsp 4 y = pad 4 y.
+Proof.
+  intros H. unfold fmtsp, sdec. destruct (Z.ltb_spec y 0); [lia|].
+  unfold dec. rewrite (ndigits_4 y H), pad_length. reflexivity.
+Qed.
+
 Lemma formatted_shape us : utc_first * 1000000 <= us < utc_end * 1000000 -> 0 <= us ->
   let dt := break_utc (us / 1000000) in
   ts_toFormatted us true =
@@ -128,20 +149,14 @@ Proof.
   split; [|split; [exact Hv|exact Hback]].
   unfold ts_toFormatted. assert (Hk : kMicroSecondsPerSecond = 1000000) by reflexivity. rewrite Hk.
   rewrite Z.quot_div_nonneg, Z.rem_mod_nonneg by lia.
-  set (dt := break_utc (us / 1000000)) in *.
+  generalize dependent (break_utc (us / 1000000)). intros dt Hv _.
   unfold valid_datetime, valid_date, first_year, last_year in Hv.
   rewrite !andb_true_iff, !Z.leb_le in Hv.
   pose proof (days_in_month_le (year dt) (month dt)) as H31.
   assert (Hm : 0 <= us mod 1000000 < 1000000) by (apply Z.mod_pos_bound; lia).
-  rewrite !fmt0_small by (try lia; cbn; lia).
-  unfold fmtsp, sdec. destruct (Z.ltb_spec (year dt) 0); [lia|].
-  assert (Hy : dec (year dt) = pad 4 (year dt)).
-  { unfold dec. f_equal.
-    assert (ndigits 20 (year dt) <= 4)%nat by (apply ndigits_le; [cbn; lia|lia]).
-    assert (10 ^ Z.of_nat 3 <= year dt) by (cbn; lia).
-    assert (year dt < 10 ^ Z.of_nat (ndigits 20 (year dt))) by (apply ndigits_enough; cbn; lia).
-    destruct (ndigits 20 (year dt)) as [|[|[|[|[|?]]]]]; cbn in *; lia. }
-  rewrite Hy, pad_length. cbn [Nat.sub repeat app]. reflexivity.
+  rewrite (fmt0_2 (month dt)), (fmt0_2 (day dt)), (fmt0_2 (hour dt)), (fmt0_2 (minute dt)), (fmt0_2 (second dt)),
+          (fmt0_6 (us mod 1000000)), (fmtsp_4 (year dt)) by lia.
+  reflexivity.
 Qed.
 
 Lemma firstn_skipn_field (pre f post : list byte) :
@@ -153,7 +168,7 @@ Lemma timestamp_formatted_roundtrip us :
   ts_parseFormatted (ts_toFormatted us true) = us.
 Proof.
   intros Hr H0. destruct (formatted_shape us Hr H0) as (Hshape & Hv & Hback). cbv zeta in *.
-  set (dt := break_utc (us / 1000000)) in *. rewrite Hshape.
+  rewrite Hshape. clear Hshape. generalize dependent (break_utc (us / 1000000)). intros dt Hv Hback.
   unfold valid_datetime, valid_date, first_year, last_year in Hv.
   rewrite !andb_true_iff, !Z.leb_le in Hv.
   pose proof (days_in_month_le (year dt) (month dt)) as H31.
@@ -188,7 +203,9 @@ Proof.
     rewrite !app_length, LY, LMo, LD, LH, LMi, LS, LU in E. cbn [length Nat.add] in E. rewrite <- !app_assoc in E.
     rewrite app_nil_r in E. exact E. }
   rewrite F0, F4, F6, F9, F12, F15, F18. unfold Y, Mo, D, H, Mi, S, Us. rewrite !parse_pad.
-  rewrite !Z.mod_small by (cbn; lia).
+  rewrite (Z.mod_small (year dt)), (Z.mod_small (month dt)), (Z.mod_small (day dt)), (Z.mod_small (hour dt)),
+          (Z.mod_small (minute dt)), (Z.mod_small (second dt)), (Z.mod_small (us mod 1000000))
+    by (first [change (10 ^ Z.of_nat 4) with 10000 | change (10 ^ Z.of_nat 2) with 100 | change (10 ^ Z.of_nat 6) with 1000000]; lia).
   replace (mkDT (year dt) (month dt) (day dt) (hour dt) (minute dt) (second dt)) with dt by (destruct dt; reflexivity).
   rewrite Hback. assert (Hk : kMicroSecondsPerSecond = 1000000) by reflexivity. rewrite Hk.
   pose proof (Z.div_mod us 1000000). lia.
@@ -263,8 +280,10 @@ Proof.
   assert (Hn : forall x, existsb (fun b0 => Byte.eqb b0 ch_colon) (dec (Z_of_byte x)) = false).
   { intros x. destruct (octet_facts x) as (_ & H & _).
     induction H as [|y r [_ Hy] _ IH]; [reflexivity|]. cbn [existsb]. rewrite Hy, IH. reflexivity. }
-  rewrite !existsb_app. cbn [existsb]. rewrite !Hn.
-  replace (Byte.eqb ch_dot ch_colon) with false by reflexivity. reflexivity.
+  replace (Byte.eqb ch_dot ch_colon) with false in * by reflexivity.
+  repeat (rewrite existsb_app; cbn [existsb]; rewrite ?Hn;
+          replace (Byte.eqb ch_dot ch_colon) with false by reflexivity; cbn [orb]).
+  rewrite ?Hn; reflexivity.
 Qed.
 
 (* ---- port byte order, ip:port assembly --------------------------------------------------- *)
@@ -347,4 +366,13 @@ Lemma fromLocalTime_of_toLocalTime tb t post : sorted_utc (trans tb) = true ->
 Proof.
   intros Hs Hr. rewrite toLocalTime_spec by exact Hs. cbn [fst]. unfold fromLocalTime.
   destruct (utc_roundtrip _ Hr) as [_ E]. rewrite E. reflexivity.
+Qed.
+
+Lemma timestamp_formatted_len_roundtrip us :
+  utc_first * 1000000 <= us < utc_end * 1000000 -> 0 <= us ->
+  length (ts_toFormatted us true) = 24%nat /\ ts_parseFormatted (ts_toFormatted us true) = us.
+Proof.
+  intros Hr H0. split; [|apply timestamp_formatted_roundtrip; assumption].
+  destruct (formatted_shape us Hr H0) as (Hshape & _). cbv zeta in Hshape. rewrite Hshape.
+  rewrite !app_length, !pad_length. reflexivity.
 Qed.
